@@ -64,6 +64,9 @@ class StubTransport:
 
     def send(self, msg):
         from autobahn.wamp.exception import SerializationError, TransportLost
+        hook = getattr(self.world, "on_send_attempt", None)
+        if hook is not None:
+            hook(msg)
         if not self.attached:
             self.run.log("send-on-detached", type(msg).__name__)
             raise TransportLost()
